@@ -99,17 +99,17 @@ theorem PD.toDesc_valid (d : PD) (h : d.WF) : d.toDesc.Valid := by
 /-- completeness of [[GetOwnProperty]]'s check for the honest answer: the exact descriptor of an existing
 property is accepted, and what the proxy reports is that property again -/
 theorem gopd_honest (c : Cur) (ext : Bool) :
-    ∃ r, gopdCheckWith isCompatibleFixed toValuePropFixed c.toTProp ext (.obj c.toDesc) = .ok r ∧ r.toCur = some c := by
+    ∃ r, gopdCheckWith isCompatible toValueProp c.toTProp ext (.obj c.toDesc) = .ok r ∧ r.toCur = some c := by
   cases c with
   | data v w e c =>
     cases w <;> cases e <;> cases c <;>
-      simp [gopdCheckWith, Cur.toTProp, Cur.toDesc, Desc.complete, isCompatibleFixed, propToValueProp, Flag.ofBool,
-        Flag.bool, Desc.isGeneric, Desc.isData, Desc.isAccessor, sameAs, toValuePropFixed, toValuePropWith, TProp.toCur,
+      simp [gopdCheckWith, Cur.toTProp, Cur.toDesc, Desc.complete, isCompatible, propToValueProp, Flag.ofBool,
+        Flag.bool, Desc.isGeneric, Desc.isData, Desc.isAccessor, sameAs, toValueProp, toValuePropWith, TProp.toCur,
         VProp.toCur, asObj]
   | acc g s e c =>
     cases e <;> cases c <;> cases g <;> cases s <;>
-      simp [gopdCheckWith, Cur.toTProp, Cur.toDesc, Desc.complete, isCompatibleFixed, propToValueProp, Flag.ofBool,
-        Flag.bool, Desc.isGeneric, Desc.isData, Desc.isAccessor, sameAs, toValuePropFixed, toValuePropWith, TProp.toCur,
+      simp [gopdCheckWith, Cur.toTProp, Cur.toDesc, Desc.complete, isCompatible, propToValueProp, Flag.ofBool,
+        Flag.bool, Desc.isGeneric, Desc.isData, Desc.isAccessor, sameAs, toValueProp, toValuePropWith, TProp.toCur,
         VProp.toCur, asObj]
 
 theorem loop1_honest (ks : List Key) : ∀ (kl set : List Key), (∀ k ∈ ks, k ∉ set) → ks.Nodup →
@@ -434,7 +434,7 @@ theorem complete_valid (d : Desc) (h : d.Valid) : d.complete.Valid := by
     simp_all [Desc.complete, Desc.Valid, accessorFieldValid]
 
 theorem gopdTail_toCur (d : Desc) (h : d.Valid) :
-    (gopdTail toValuePropFixed d).toCur = some d.toPD.complete.toCur := by
+    (gopdTail toValueProp d).toCur = some d.toPD.complete.toCur := by
   rcases d with ⟨v, w, c, e, g, s⟩
   obtain ⟨hg, hs, hx⟩ := h
   rcases accessorField_cases hg with hg | hg | ⟨og, hg⟩ <;>
@@ -442,7 +442,7 @@ theorem gopdTail_toCur (d : Desc) (h : d.Valid) :
   subst hg <;> subst hs <;>
   cases v <;> cases w <;> cases c <;> cases e <;>
     simp_all [gopdTail, Desc.complete, Desc.toPD, PD.complete, PD.toCur, PD.isGenericDescriptor, PD.isAccessorDescriptor,
-      PD.isDataDescriptor, Flag.toOpt, Flag.bool, toValuePropFixed, toValuePropWith, TProp.toCur, propToValueProp,
+      PD.isDataDescriptor, Flag.toOpt, Flag.bool, toValueProp, toValuePropWith, TProp.toCur, propToValueProp,
       VProp.toCur, asObj]
 
 
